@@ -8,16 +8,26 @@ SOURCES = ["src/allmydata/dirnode.py", "src/allmydata/unknown.py", "src/allmydat
            "src/allmydata/util/netstring.py"]
 DESIGN_REF = "DESIGN.md §2 C19"
 TECHNIQUE = ("Lean 4 theorems over an executable model of pack/unpack (netstring framing, name normalization, abstract "
-             "JSON and encryption with round-trip hypotheses, create_from_cap/UnknownNode prefix logic); differential "
-             "correspondence of pack_children, _pack_contents, _unpack_contents and create_from_cap on real DirectoryNodes "
-             "(mutable through write and read handle, immutable) for generated child sets and structured malformed data; "
-             "implementation-side round-trip monitor")
-LEVEL_TEXT = ("unpack∘pack = canon, pack∘unpack∘pack = pack, names-normalized and immutable-refusal theorems proved in Lean "
-              "for all child lists; model tied to the code by comparing the packed bytes (ciphertexts re-framed after "
-              "decryption), the unpacked (name, kind, write cap, read cap, metadata) lists and create_from_cap results.")
+             "JSON and encryption with round-trip hypotheses, AuxValueDict cache, create_from_cap / UnknownNode / "
+             "uri.from_string prefix logic): unpack_pack, unpack_pack_all_kept, pack_unpack_pack, names_normalized, "
+             "pack_children_names_normalized, immutable_dir_refuses_mutable, the canon_* fixpoint theorems, "
+             "repack_preserves_both_slots, listing_packed_for_another_directory; differential correspondence of "
+             "pack_children, _pack_contents, _unpack_contents and create_from_cap on real DirectoryNodes (mutable through "
+             "write and read handle, immutable) for generated child sets, the full rw-slot x ro-slot grid, multi-step "
+             "histories and structured malformed data; implementation-side round-trip monitor")
+LEVEL_TEXT = ("14 theorems proved in Lean for all child lists: unpack∘pack = canon (names, order, metadata, cached raw entry), "
+              "pack∘unpack∘pack = pack, names normalized and distinct for any input bytes, immutable directories refuse "
+              "exactly the disallowed children, canon is the identity for known nodes, for an unknown write cap next to any "
+              "read cap, for a lone unknown read cap and for an imm.-alleged cap in an immutable directory, a listing packed "
+              "for another directory is re-encoded under the target key; one counterexample theorem for the open finding "
+              "(caps with two alleged prefixes are not preserved).  Model tied to the code by comparing the packed bytes "
+              "(ciphertexts re-framed after decryption), the unpacked (name, kind, write cap, read cap, metadata) lists and "
+              "create_from_cap results.  Correspondence/monitor only: NFC itself, the strengthening of ro.-alleged or "
+              "unprefixed unknown caps to imm. in immutable directories, shared state between parse results.")
 LEVEL_NOTE = ("Lean kernel + standard axioms; normalize, JSON, UTF-8 and the rw-cap cipher are abstract with explicit "
-              "round-trip hypotheses (instances given; sampled on the real code); cap classification is an oracle "
-              "computed by the real uri.from_string; sorted() is an input ordering.")
+              "round-trip hypotheses (structure RoundTrip; instance given; sampled on the real code); cap classification is "
+              "an oracle computed by the real uri.from_string (its C15/C16 facts are hypotheses of the canon_* theorems); "
+              "sorted() is an input ordering; split_netstring's int() quirks are C38's.")
 RULE = ("generated child sets (0..50 children, names from several scripts incl. names that change under NFC and NFC-"
         "colliding spellings, every cap kind incl. unknown caps with/without ro./imm. prefixes and invalid combinations, "
         "nested JSON metadata) packed for a mutable and for an immutable directory, unpacked through write handle, read "
@@ -42,6 +52,8 @@ ASSUMPTIONS = ["NFC is idempotent; json.loads(json.dumps(md)) == md for the gene
                "verifier caps as children are not generated (they become UnknownNodes in create_from_cap)",
                "the x-tahoe-future-test-writeable:/-mutable: test caps are, by their purpose, dropped when read in a stricter "
                "context; the monitor does not demand that they survive an immutable directory",
+               "trailing spaces of caps are padding by design (rstrip inside canon); caps with two alleged prefixes are the open "
+               "known finding roundtrip-double-prefix",
                "split_netstring's use of int() (accepting '+', '_', spaces) is C38's subject; the malformed stream does not "
                "produce such length fields"]
 
